@@ -16,7 +16,7 @@ RULE = ('Per case: one Metric subclass (found by introspection of fedjax.metrics
         'scores random / exact ties / constant / +-1e30 / small integers, targets random / tail-padded / fully masked / '
         'unmasked / one real token. evaluate_example runs eagerly (jax.disable_jit) and the statistic fields and result() are '
         'compared with a float64 NumPy reference written from the docstring. Extra families: top-1 == accuracy, forced '
-        'tie-at-the-boundary cases, confusion-matrix trace/total over merged and masked batches, per-domain slices over '
+        'tie-at-the-boundary cases (also with 17/24/40 classes), confusion-matrix trace/total over merged and masked batches, per-domain slices over '
         'merged examples. Non-trivial: the case shows at least one domain edge (tie, masked or fully masked target, k<1, '
         'k>=C, logits mask, extreme magnitude, per_position, >1 domain, multi-example identity); distinct by (class, '
         'constructor args, C, L, digest of targets and scores).')
@@ -217,6 +217,13 @@ def fields(stat):
   if hasattr(stat, 'weight'):
     out['weight'] = np.asarray(stat.weight).astype(np.float64)
   return type(stat).__name__, out
+
+
+def fits(small, big):
+  try:
+    return np.broadcast_shapes(tuple(small), tuple(big)) == tuple(big)
+  except ValueError:
+    return False
 
 
 def xclose(got, ref):
@@ -457,6 +464,8 @@ def run(ctx):
     for cid, rng in ctx.cases('tie', 500 * scale):
       i = int(cid.split('/')[1])
       C, L = shapes[i % len(shapes)]
+      if rng.rand() < 0.3:
+        C = [17, 24, 40][rng.randint(3)]     # an unstable sort only shows beyond ~16 elements on the CPU backend
       check_tie_case(ctx, M, jnp, rng, C, (i // len(shapes)) % 3)
 
     # ------------------------------------------- confusion matrix identities
@@ -679,12 +688,12 @@ def check_perdomain_multi(ctx, M, jnp, rng, C, L, bname):
       _, fb = fields(per[d])
       bres = np.asarray(per[d].result()).astype(np.float64)
       w = dict(wit, domain=d, per_domain={f: fs[f][d] for f in fs}, base=fb)
-      ok = all(np.broadcast_shapes(fb[f].shape, fs[f][d].shape) == fs[f][d].shape and xclose(fs[f][d], np.broadcast_to(
+      ok = all(fits(fb[f].shape, fs[f][d].shape) and xclose(fs[f][d], np.broadcast_to(
           fb[f], fs[f][d].shape)) for f in fb)
       empty = d not in doms
       ctx.check(ok, 'pdslice/' + ('empty-domain-not-zero' if empty else 'slice-differs-from-base'),
                 f'merged per-domain statistic of domain {d} differs from the base metric over that domain', w)
-      ctx.check(not np.any(np.isnan(res[d])) and xclose(res[d], np.broadcast_to(bres, res[d].shape)),
+      ctx.check(not np.any(np.isnan(res[d])) and fits(bres.shape, res[d].shape) and xclose(res[d], np.broadcast_to(bres, res[d].shape)),
                 'pdslice/' + ('empty-domain-result' if empty else 'result-differs-from-base'),
                 f'per-domain result of domain {d} differs from the base result', dict(w, result=res[d], base_result=bres))
     ctx.klass('pd-empty-domain' if len(set(doms)) < D else 'pd-all-domains')
